@@ -428,21 +428,33 @@ def main(chk):
     # (on every path; what a `with` acquires and what is read are taken with the path-local names substituted, so the lock may or may not be kept in a local)
     from verif_static import paths as PT
     pid_ = gr.args.args[1].arg if len(gr.args.args) > 1 else 'lock_id'
-    want_lock, want_res = 'self.queue_lock_map[%s]' % pid_, 'self.results[%s]' % pid_
+    KEYS = (pid_, 'int(%s)' % pid_)                     # the id as given or converted to int
+    gtl = lm.meths.get('get_task_lock')
+    gtl_ok = gtl is not None and len(gtl.args.args) == 2 and any(isinstance(r_, ast.Return) and r_.value is not None and
+                                                               U(r_.value).replace(' ', '') in ('self.queue_lock_map[%s]' % gtl.args.args[1].arg, 'self.queue_lock_map[int(%s)]' % gtl.args.args[1].arg)
+                                                               for r_ in ast.walk(gtl))
+    want_lock = ['self.queue_lock_map[%s]' % k_ for k_ in KEYS] + (['self.get_task_lock(%s)' % k_ for k_ in KEYS] if gtl_ok else [])
+    want_res = ['self.results[%s]' % k_ for k_ in KEYS]
+    want_pop = ['self.results.pop(%s)' % k_ for k_ in KEYS]
     gpaths = PT.enumerate_paths(M.docstring_stripped(gr.body))
     ok, consumed = bool(gpaths), bool(gpaths)
+
+    def rtext(x, env):
+        return U(PT.resolve(x, env)).replace(' ', '')
     for p_ in gpaths:
         if p_[-1].kind == 'raise':
             continue
-        held = [e.node for e in p_ if e.kind == 'stmt' and isinstance(e.node, ast.With)
-                and any(PT.resolve(it_.context_expr, e.env) is not None and U(PT.resolve(it_.context_expr, e.env)).replace(' ', '') == want_lock for it_ in e.node.items)]
+        held = [e.node for e in p_ if e.kind == 'stmt' and isinstance(e.node, ast.With) and any(rtext(it_.context_expr, e.env) in want_lock for it_ in e.node.items)]
         reads = [x for e in p_ if e.kind in ('stmt', 'return') and not isinstance(e.node, (ast.With, ast.Delete)) for x in ast.walk(e.node)
-                 if isinstance(x, ast.Subscript) and isinstance(x.ctx, ast.Load) and U(PT.resolve(x, e.env)).replace(' ', '') == want_res]
+                 if (isinstance(x, ast.Subscript) and isinstance(x.ctx, ast.Load) and rtext(x, e.env) in want_res) or (isinstance(x, ast.Call) and rtext(x, e.env) in want_pop)]
         if not reads or not held or not all(any(r_ is y for y in ast.walk(held[0])) for r_ in reads):
             ok = False
-        dels = [U(PT.resolve(ast.Subscript(value=d.value, slice=d.slice, ctx=ast.Load()), e.env)).replace(' ', '') for e in p_ if e.kind == 'stmt' and isinstance(e.node, ast.Delete)
+        dels = [rtext(ast.Subscript(value=d.value, slice=d.slice, ctx=ast.Load()), e.env) for e in p_ if e.kind == 'stmt' and isinstance(e.node, ast.Delete)
                 for d in e.node.targets if isinstance(d, ast.Subscript)]
-        if want_res not in dels or want_lock not in dels:
+        pops = [rtext(x, e.env) for e in p_ if e.kind in ('stmt', 'return') for x in ast.walk(e.node) if isinstance(x, ast.Call) and isinstance(x.func, ast.Attribute) and x.func.attr == 'pop']
+        gone_res = any(d_ in want_res for d_ in dels) or any(p2 in want_pop for p2 in pops)
+        gone_lock = any(d_ in ['self.queue_lock_map[%s]' % k_ for k_ in KEYS] for d_ in dels) or any(p2 in ['self.queue_lock_map.pop(%s)' % k_ for k_ in KEYS] for p2 in pops)
+        if not (gone_res and gone_lock):
             consumed = False
     chk.decide(ok, 'command-lock-handoff', 'get_result:waits-on-command-lock', node=gr, file=CT, func='get_result',
                detail_bad='the result is read without first acquiring the lock of that command', detail_ok='with queue_lock_map[id]: read result')
@@ -458,6 +470,47 @@ def main(chk):
     chk.decide(ok, 'command-lock-handoff', 'solver:runs-queue-at-control-point-and-while-paused', node=ex, file=CT, func='execute_commands',
                detail_bad='queued commands are not run (under qlock) at the control point and after each wake-up while paused',
                detail_ok='run_queued_commands under qlock in execute_commands and in the pause loop')
+    # ... and in the pause loop the queue is run AFTER each wake-up, before the pause condition is looked at again: what was queued while the solver slept is executed
+    # before the solver goes on (or leaves its last control point).  Per path through the body of the loop
+    wloops = [l for l in ast.walk(wf) if isinstance(l, ast.While)]
+    okw, whyw = bool(wloops), 'no pause loop'
+    if wloops:
+        for p_ in PT.enumerate_paths(list(wloops[0].body)):
+            seq = [cal for i, c, cal, env in PT.calls_on(p_) if cal in ('self.qlock.wait', 'self.run_queued_commands')]
+            if 'self.qlock.wait' not in seq:
+                okw, whyw = False, 'an iteration of the pause loop does not block on qlock (busy loop)'
+            elif not seq or seq[-1] != 'self.run_queued_commands':
+                okw, whyw = False, 'after waking up (%s) the loop tests the pause again without running the queue' % ' -> '.join(x.split('.')[-1] for x in seq)
+    chk.decide(okw, 'command-lock-handoff', 'solver:queue-run-after-every-wake-up', node=wloops[0] if wloops else wf, file=CT, func='wait_for_cmd',
+               detail_bad='%s: a command queued during the pause is deferred to the next control point - or never run when the pause was at the last one, and get_result blocks for ever' % whyw,
+               detail_ok='wait(); run_queued_commands() in every iteration of the pause loop')
+    # who holds a pause: the identity recorded in self.pause is that of the thread calling pause_on_next() / cont() at that moment (an identity captured elsewhere - when
+    # a Controller is constructed, in the thread that adds the interface - is shared by all interfaces: one cont() then releases everybody's pause)
+    IDENT = 'threading.current_thread().ident'
+    ctl = M.find_class(M.py(CT), 'Controller')
+    for mname, op_ in (('pause_on_next', 'add'), ('cont', 'remove')):
+        fm = lm.meths.get(mname)
+        badk, nk = None, 0
+        params_ = [a.arg for a in fm.args.args][1:] if fm is not None else []
+        for p_ in (PT.enumerate_paths(M.docstring_stripped(fm.body)) if fm is not None else []):
+            for i, c, cal, env in PT.calls_on(p_):
+                if cal == 'self.pause.' + op_ and c.args:
+                    nk += 1
+                    x = U(PT.resolve(c.args[0], env)).replace(' ', '')
+                    if x == IDENT:
+                        continue
+                    if x in params_:
+                        # handed in by the caller: every caller in the module must pass its own thread's identity, evaluated in the call
+                        k_ = params_.index(x)
+                        for cc in [cc for cc in ast.walk(ctl) if isinstance(cc, ast.Call) and isinstance(cc.func, ast.Attribute) and cc.func.attr == mname]:
+                            arg = cc.args[k_] if k_ < len(cc.args) else dict((kw.arg, kw.value) for kw in cc.keywords).get(x)
+                            if arg is not None and U(arg).replace(' ', '') != IDENT:
+                                badk = badk or '%s(%s) is given %s' % (mname, x, U(arg))
+                    else:
+                        badk = badk or 'self.pause.%s(%s)' % (op_, x)
+        chk.decide(fm is not None and nk > 0 and badk is None, 'command-lock-handoff', 'pause-identity:%s' % mname, node=fm, file=CT, func=mname,
+                   detail_bad='the pause is recorded under an identity that is not the calling thread\'s at the time of the call: %s' % badk,
+                   detail_ok='self.pause.%s(threading.current_thread().ident)' % op_)
     # pause loop: solver makes no progress while any interface holds a pause
     loops = [l for l in ast.walk(wf) if isinstance(l, ast.While)]
     chk.decide(bool(loops) and U(loops[0].test) == 'self.pause', 'command-lock-handoff', 'solver:stays-paused', node=wf, file=CT,
